@@ -61,6 +61,11 @@ pub struct WireState {
     /// send ordinal (0 = the client hello) -> that send reports an I/O error; `true`: after the
     /// bytes were handed to the peer (a flush that fails late), `false`: nothing was delivered
     pub send_faults: std::collections::BTreeMap<usize, bool>,
+    /// a send hands its bytes to the peer at once but completes only when the harness lets it
+    /// (`finish_send`): the time a flush takes, during which the peer can already answer
+    pub send_lingers: bool,
+    pub linger_credits: usize,
+    pub linger_waker: Option<Waker>,
 }
 
 #[derive(Clone, Default)]
@@ -133,6 +138,31 @@ impl Wire {
             w.wake();
         }
     }
+    /// a send has delivered its bytes and waits to be let through
+    pub fn send_lingering(&self) -> bool {
+        self.state.lock().unwrap().linger_waker.is_some()
+    }
+    /// let one delivered send complete
+    pub fn finish_send(&self) {
+        let waker = {
+            let mut st = self.state.lock().unwrap();
+            st.linger_credits += 1;
+            st.linger_waker.take()
+        };
+        if let Some(w) = waker {
+            w.wake();
+        }
+    }
+    pub fn set_send_lingers(&self, on: bool) {
+        let waker = {
+            let mut st = self.state.lock().unwrap();
+            st.send_lingers = on;
+            if on { None } else { st.linger_waker.take() }
+        };
+        if let Some(w) = waker {
+            w.wake();
+        }
+    }
     pub fn send_waiting(&self) -> bool {
         self.state.lock().unwrap().send_waker.is_some()
     }
@@ -184,10 +214,23 @@ impl SendHandle for MemSender {
     async fn send(&mut self, data: Bytes) -> Result<(), Error> {
         let wire = self.wire.clone();
         let mut data = Some(data);
+        let mut delivered = false;
         std::future::poll_fn(move |cx| {
             let waker;
             {
                 let mut st = wire.state.lock().unwrap();
+                if delivered {
+                    // the bytes are with the peer; the call returns when the flush "completes"
+                    if !st.send_lingers {
+                        return Poll::Ready(Ok(()));
+                    }
+                    if st.linger_credits > 0 {
+                        st.linger_credits -= 1;
+                        return Poll::Ready(Ok(()));
+                    }
+                    st.linger_waker = Some(cx.waker().clone());
+                    return Poll::Pending;
+                }
                 if st.send_gate_closed || st.send_credits == Some(0) {
                     st.send_waker = Some(cx.waker().clone());
                     return Poll::Pending;
@@ -233,6 +276,20 @@ impl SendHandle for MemSender {
                     }
                 }
                 waker = st.recv_waker.take();
+                delivered = true;
+                // (the client hello is never held back)
+                if st.send_lingers && st.send_attempts > 1 {
+                    if st.linger_credits > 0 {
+                        st.linger_credits -= 1;
+                    } else {
+                        st.linger_waker = Some(cx.waker().clone());
+                        drop(st);
+                        if let Some(w) = waker {
+                            w.wake();
+                        }
+                        return Poll::Pending;
+                    }
+                }
             }
             if let Some(w) = waker {
                 w.wake();
